@@ -1,6 +1,7 @@
 /* C05: XML export followed by import reproduces the topology, and is a fixpoint.
  * The XML back ends are fixed per worker process through HWLOC_LIBXML_EXPORT / HWLOC_LIBXML_IMPORT. */
 #include "hv.h"
+#include <hwloc/memattrs.h>
 #include "topo.h"
 #include "hist.h"
 #include <unistd.h>
@@ -73,6 +74,19 @@ static hwloc_topology_t reload(const char *buf, int len, const char *path, hwloc
   if (hwloc_topology_load(t2) < 0) { *stage = 3; hwloc_topology_destroy(t2); return NULL; }
   *stage = 0;
   return t2;
+}
+
+/* two cpuset initiators of one (attribute, target) intersect: the importer re-adds the values one by one and a value whose cpuset is included
+ * in an earlier one replaces it (the statement of C14 only covers pairwise disjoint initiators; recorded as an open finding for the round trip) */
+static int overlapping_initiators(hwloc_topology_t t)
+{
+  for (unsigned id = 0; ; id++) {
+    const char *nm; if (hwloc_memattr_get_name(t, id, &nm) < 0) return 0;
+    unsigned long fl = 0; hwloc_memattr_get_flags(t, id, &fl); if (!(fl & HWLOC_MEMATTR_FLAG_NEED_INITIATOR)) continue;
+    hwloc_obj_t tg[64]; unsigned nt = 64; if (hwloc_memattr_get_targets(t, id, NULL, 0, &nt, tg, NULL) != 0) continue;
+    for (unsigned k = 0; k < nt && k < 64; k++) { struct hwloc_location loc[32]; unsigned ni = 32; if (hwloc_memattr_get_initiators(t, id, tg[k], 0, &ni, loc, NULL) != 0) continue;
+      for (unsigned a = 0; a < ni && a < 32; a++) for (unsigned b = a + 1; b < ni && b < 32; b++) if (loc[a].type == HWLOC_LOCATION_TYPE_CPUSET && loc[b].type == HWLOC_LOCATION_TYPE_CPUSET && hwloc_bitmap_intersects(loc[a].location.cpuset, loc[b].location.cpuset)) return 1; }
+  }
 }
 
 static unsigned canon_what(hwloc_topology_t t)
@@ -174,7 +188,7 @@ void hv_case(uint64_t index)
       if (!canon_diff(&a2, &b2)) what = "memory_child_complete_cpuset";
       hv_str_free(&a2); hv_str_free(&b2);
     }
-    char key[64]; snprintf(key, sizeof key, "roundtrip.differs.%s", what);
+    char key[96]; snprintf(key, sizeof key, "roundtrip.differs.%s%s", what, !strcmp(what, "memattrs") && overlapping_initiators(t) ? ".overlapping_initiators" : "");
     hv_viol(key, "reloaded topology differs: %s", df);
   }
   hv_stat("roundtrip.v3_compared", 1);
